@@ -147,8 +147,14 @@ var c01Funcs = map[string]func(a, b []byte){
 		_, err := hostsfile.NewDefaultStorage(bytes.NewReader(a), bytes.NewReader(b))
 		errStr(err)
 	},
-	"stringutil.go CloneSliceOrEmpty": func(a, b []byte) { stringutil.CloneSliceOrEmpty([]string{string(a)}); stringutil.CloneSliceOrEmpty(nil) },
-	"stringutil.go ContainsFold":      func(a, b []byte) { stringutil.ContainsFold(string(a), string(b)); stringutil.ContainsFold(string(b), string(a)) },
+	"stringutil.go CloneSliceOrEmpty": func(a, b []byte) {
+		stringutil.CloneSliceOrEmpty([]string{string(a)})
+		stringutil.CloneSliceOrEmpty(nil)
+	},
+	"stringutil.go ContainsFold": func(a, b []byte) {
+		stringutil.ContainsFold(string(a), string(b))
+		stringutil.ContainsFold(string(b), string(a))
+	},
 	"stringutil.go FilterOut": func(a, b []byte) {
 		stringutil.FilterOut([]string{string(a), string(b)}, func(s string) bool { return len(s) > 2 })
 	},
@@ -175,12 +181,15 @@ var c01Funcs = map[string]func(a, b []byte){
 		u := &urlutil.URL{}
 		errStr(u.UnmarshalText(a))
 	},
-	"url.go Parse":                        func(a, b []byte) { _, err := urlutil.Parse(string(a)); errStr(err) },
-	"urlutil.go IsValidGRPCURLScheme":     func(a, b []byte) { urlutil.IsValidGRPCURLScheme(string(a)) },
-	"urlutil.go IsValidHTTPURLScheme":     func(a, b []byte) { urlutil.IsValidHTTPURLScheme(string(a)) },
-	"urlutil.go RedactUserinfo":           func(a, b []byte) { withURL(a, func(u *url.URL) { urlutil.RedactUserinfo(u) }) },
+	"url.go Parse":                    func(a, b []byte) { _, err := urlutil.Parse(string(a)); errStr(err) },
+	"urlutil.go IsValidGRPCURLScheme": func(a, b []byte) { urlutil.IsValidGRPCURLScheme(string(a)) },
+	"urlutil.go IsValidHTTPURLScheme": func(a, b []byte) { urlutil.IsValidHTTPURLScheme(string(a)) },
+	"urlutil.go RedactUserinfo":       func(a, b []byte) { withURL(a, func(u *url.URL) { urlutil.RedactUserinfo(u) }) },
 	"urlutil.go RedactUserinfoInURLError": func(a, b []byte) {
-		withURL(a, func(u *url.URL) { urlutil.RedactUserinfoInURLError(u, &url.Error{URL: string(b)}); urlutil.RedactUserinfoInURLError(u, nil) })
+		withURL(a, func(u *url.URL) {
+			urlutil.RedactUserinfoInURLError(u, &url.Error{URL: string(b)})
+			urlutil.RedactUserinfoInURLError(u, nil)
+		})
 	},
 	"urlutil.go ValidateFileURL": func(a, b []byte) { withURL(a, func(u *url.URL) { errStr(urlutil.ValidateFileURL(u)) }) },
 	"urlutil.go ValidateGRPCURL": func(a, b []byte) { withURL(a, func(u *url.URL) { errStr(urlutil.ValidateGRPCURL(u)) }) },
@@ -193,11 +202,11 @@ var c01Funcs = map[string]func(a, b []byte){
 var c01Exempt = map[string]string{
 	"addrconv.go IPv4Localhost": "no input", "addrconv.go IPv6Localhost": "no input",
 	"addrconv.go ZeroPrefix": "fam must be IPv4 or IPv6 (documented precondition, panics otherwise by design)",
-	"ip.go IPv4Zero": "no input", "ip.go IPv4allrouter": "no input", "ip.go IPv4allsys": "no input", "ip.go IPv4bcast": "no input", "ip.go IPv6Zero": "no input",
+	"ip.go IPv4Zero":         "no input", "ip.go IPv4allrouter": "no input", "ip.go IPv4allsys": "no input", "ip.go IPv4bcast": "no input", "ip.go IPv6Zero": "no input",
 	"error.go (*AddrError).Error": "reached through every returned error", "error.go (*LabelError).Error": "reached through every returned error",
 	"error.go (*LengthError).Error": "reached through every returned error", "error.go (*LineError).Error": "reached through every returned error",
-	"error.go (*RuneError).Error": "reached through every returned error",
-	"paths.go DefaultHostsPaths":  "no input",
+	"error.go (*RuneError).Error":             "reached through every returned error",
+	"paths.go DefaultHostsPaths":              "no input",
 	"storage.go (*DefaultStorage).RangeAddrs": "callback only", "storage.go (*DefaultStorage).RangeNames": "callback only",
 	"clock.go (SystemClock).After": "not text", "schedule.go (*ConstSchedule).UntilNext": "not text", "schedule.go (*CronSchedule).UntilNext": "not text",
 	"schedule.go (*RandomizedSchedule).UntilNext": "not text", "schedule.go NewConstSchedule": "not text", "schedule.go NewRandomizedSchedule": "not text",
